@@ -82,9 +82,14 @@ def main():
         # our checks against the changed tree
         sh("rm -rf _build seed .git", cwd=src)
         env = dict(os.environ, NEVER_REPO=src)
+        # private copy of the framework (see tools/try_seed.sh): generated Coq tables, rebuilt .vo files
+        # and evidence of a run against a changed tree must not touch /verif
+        vcopy = os.path.join(scr, "verif")
+        sh("rsync -a --exclude .git --exclude out --exclude .cache --exclude seeded %s/ %s/ && ln -s %s/.cache %s/.cache" % (
+            VERIF, vcopy, VERIF, vcopy))
         for cid in checks:
             t = time.time()
-            rc, out = sh("bin/check %s --tier quick" % cid, cwd=VERIF, env=env, timeout=1800)
+            rc, out = sh("bin/check %s --tier quick" % cid, cwd=vcopy, env=env, timeout=1800)
             lines = [l[:300] for l in out.splitlines() if l.startswith(("VIOLATION", "KNOWN-FINDING", "NOTE"))]
             caught = rc == 1 and any(l.startswith("VIOLATION") for l in lines)
             concrete = any(l.startswith("VIOLATION") and "no-failing-input-found" not in l for l in lines)
